@@ -174,7 +174,10 @@ def check_insert_alignment(run, db):
         if not any(t.get('short') == 'insert' and 'free_memory_list' in t.get('cls', '') for e, t in flow.call_events(f)):
             continue
         try:
-            S = fwd.summarize(f, db=db, roles={}, inline_pred=c01.inline_cursor, no_forward=True)
+            # the fixed stack's allocate(end, size, alignment) stays a call (its alignment argument is what matters here); the
+            # cursor accessors are inlined so that an address read before and after a bump can be told apart
+            S = fwd.summarize(f, db=db, roles={}, no_forward=True,
+                              inline_pred=lambda fn, callee, t: callee.short != 'allocate' and c01.inline_cursor(fn, callee, t))
         except sym.PathLimit as e:
             run.broke(str(e))
             continue
